@@ -97,9 +97,6 @@ fn check_identity(ctx: &mut Ctx, c: &IdCase) -> Res {
         if ltk.srv_value() != srv.as_slice() || LongTermKey::calc_srv_value(&pk) != srv {
             return ctx.fail("srv-value-wrong", format!("seed {}: SRV {} but first32(SHA-512(0xff||pk)) = {}", hex(seed), hex(ltk.srv_value()), hex(&srv)));
         }
-        if format!("{}", ltk) != hex(&pk) {
-            return ctx.fail("display-not-public-key", format!("Display of LongTermKey is {:?}", format!("{}", ltk)));
-        }
         let shared = OnlineKey::new();
         for &ietf in order {
             ctx.eval();
